@@ -182,6 +182,26 @@ def run(ctx):
                 if tr > 1e-6: viol(f'C04:solve:ill-conditioned', f'ill-conditioned Hermitian system (cond 1e{cond_e}, scale 1e{e}) not solved after n cycles: true residual {tr:.2e}', inp, tr)
                 if abs(info['residual'] - tr) > 1e-9 * max(1.0, tr) + 1e-13: viol('C04:info:residual', 'info.residual is not the true residual', inp)
                 ctx.count(('illcond', n, cond_e, e), True)
+    # badly row-scaled systems, with and without the LU preconditioner: whatever accuracy is reached, the reported residual (and
+    # residual_true) must be ||Ax - b|| / ||b|| of the ORIGINAL system for the returned x, not of the preconditioned one
+    for n in (3, 5) if ctx.quick() else (3, 4, 5, 7):
+        G = qx.to_np(qx.rand_int(rng, n, n, -3, 3)) + 4.0 * qx.to_np(qx.eye(n)); bq = qx.rand_int(rng, n, 1, -3, 3); bq[0][0] = Q(1, 2, 0, 0); bn = qx.to_np(bq)
+        for top in (4, 8, 11):
+            sc = np.array([10.0 ** (top * i / (n - 1)) for i in range(n)]).reshape(n, 1)
+            As = G * sc
+            for bname, bs in (('b', bn), ('scaled b', bn * sc)):
+              for prec in ('none', 'left_lu'):
+                inp = {'class': 'row-scaled', 'n': n, 'row scale up to': f'1e{top}', 'rhs': bname, 'preconditioner': prec, 'tol': 1e-6}
+                try: x, info = solve(As, bs, tol=1e-6, preconditioner=prec)
+                except Exception as e: viol('C04:raises:row-scaled', f'Q-GMRES raised {e!r}', inp); continue
+                if not cm.all_finite(x): continue
+                tr = relres(As, x, bs)
+                for key in ('residual', 'residual_true'):
+                    if key in info and abs(info[key] - tr) > 1e-6 * tr + 1e-13:
+                        viol(f'C04:info:{key}:row-scaled:{prec}', f'info.{key} = {info[key]:.3e} is not ||Ax-b||/||b|| = {tr:.3e} of the returned x (original system)', inp, info[key], tr)
+                if info['converged'] and tr > 10 * 1e-6:
+                    viol(f'C04:info:converged:row-scaled:{prec}', f'converged reported with true residual {tr:.2e} > 10 tol (tol = 1e-6)', inp, tr)
+                ctx.count(('row-scaled', n, top, bname, prec), True)
     # LU preconditioner failing (zero pivot): silent fallback must still solve
     Z = qx.to_np([[Q(0), Q(1)], [Q(1), Q(0)]]) * 1e-20; bz = qx.to_np([[Q(1)], [Q(0, 1)]]) * 1e-20
     try:
